@@ -13,6 +13,7 @@ fn exec_for(prop: &str) -> Exec {
         "C10" | "C11" | "C14" => props::text::exec,
         "C12" => props::edit::exec,
         "C18" => props::matchw::exec,
+        "C16" => props::windows::exec,
         _ => panic!("unknown property {prop}"),
     }
 }
@@ -36,6 +37,7 @@ fn main() {
                 "C14" => props::text::run_c14(&mut c),
                 "C12" => props::edit::run_c12(&mut c),
                 "C18" => props::matchw::run_c18(&mut c),
+                "C16" => props::windows::run_c16(&mut c),
                 _ => unreachable!(),
             }
             c.finish(dir);
